@@ -81,6 +81,7 @@ static void *vpd_memset(void *p, int c, size_t n)
 	else if (c == 0 && n == sizeof(struct request)) { static const struct request z; *(struct request *)p = z; }
 	else if (c == 0 && n == sizeof(struct search_state)) { static const struct search_state z; *(struct search_state *)p = z; }
 	else if (c == 0 && n == sizeof(struct reply)) { static const struct reply z; *(struct reply *)p = z; }
+	else if (c == 0 && n == sizeof(struct sockaddr_storage)) { static const struct sockaddr_storage z; *(struct sockaddr_storage *)p = z; }
 	else if (c == 0 && n == sizeof(struct sockaddr_in)) { static const struct sockaddr_in z; *(struct sockaddr_in *)p = z; }
 	else if (c == 0 && n == sizeof(struct sockaddr_in6)) { static const struct sockaddr_in6 z; *(struct sockaddr_in6 *)p = z; }
 	else if (c == 0 && n == sizeof(struct evutil_addrinfo)) { static const struct evutil_addrinfo z; *(struct evutil_addrinfo *)p = z; }
@@ -94,7 +95,10 @@ static void *vpd_memcpy(void *d, const void *s, size_t n)
 	vpd_check_write(d, n);
 	if (n == sizeof(struct reply)) *(struct reply *)d = *(const struct reply *)s;
 	else if (n == sizeof(struct vpd_request_obj) || n == sizeof(struct request) + VPD_REQDATA) *(struct vpd_request_obj *)d = *(const struct vpd_request_obj *)s;
-	else { size_t i; for (i = 0; i < n; i++) ((unsigned char *)d)[i] = ((const unsigned char *)s)[i]; }
+	else if (n <= 32) {      /* the solver-chosen lengths of these harnesses: a loop with a literal bound */
+		size_t i;
+		for (i = 0; i < 32; i++) if (i < n) ((unsigned char *)d)[i] = ((const unsigned char *)s)[i];
+	} else { size_t i; for (i = 0; i < n; i++) ((unsigned char *)d)[i] = ((const unsigned char *)s)[i]; }
 	return d;
 }
 #endif
